@@ -1,6 +1,7 @@
 package main
 
 import (
+	"sort"
 	"go/token"
 	"go/types"
 	"fmt"
@@ -499,6 +500,8 @@ func runC06(c *Ctx) {
 		}
 		c.Floor("O10", "CALLERS writers of "+pr.cache, n, 1)
 	}
+	runC06Elastic(c)
+	borrow(c, "O12", "C13", "O5", "a failed eviction does not end the commit", "evictions are made only to place a workload: once some victims of a scenario are evicted for real, the nomination they were evicted for must still be recorded")
 
 	// ---- O9: the start time that min-runtime protection relies on is not lost while the informer lags: a pending
 	// pod-group update is reported as "equal to the snapshot" (and may therefore be dropped) only when the
@@ -636,4 +639,75 @@ func solvedFlagMayBeTrue(v ssa.Value, solvedF map[*types.Var]bool, depth int) (m
 		return mayBeTrue, len(x.Edges) > 0
 	}
 	return false, false
+}
+
+// C06-O11 (DEP): whether a pod set is elastic does not depend on the current status of its pods. The min-runtime
+// victim filter asks IsElastic() before the solver evicts anything and the scenario validator asks it again after the
+// virtual evictions; a count that moves when a pod becomes Releasing (alive / active counters, the status index) makes
+// the two disagree — the filter lets the workload through as elastic and the validator no longer checks it.
+func runC06Elastic(c *Ctx) {
+	p, fx := c.P, c.Fx
+	const pkgSub = "pkg/scheduler/api/podgroup_info/subgroup_info"
+	fn := c.Anchor("O11", pkgSub, "PodSet", "IsElastic")
+	tn := p.TypeObj(pkgSub, "PodSet")
+	if fn == nil || tn == nil {
+		return
+	}
+	// status-dependent fields: counters changed under a pod_status predicate, and maps keyed/valued by PodStatus
+	dep := map[string]string{}
+	for _, f := range structFields(tn.Type()) {
+		if m, ok := f.Type().Underlying().(*types.Map); ok {
+			if strings.HasSuffix(typeKey(m.Key()), "PodStatus") || strings.HasSuffix(typeKey(m.Elem()), "PodStatus") {
+				dep[f.Name()] = "a map organised by pod status"
+			}
+		}
+	}
+	for _, w := range p.FuncsIn(pkgSub) {
+		if isTestdataOrMock(w) {
+			continue
+		}
+		for _, in := range instrsIn(w, func(in ssa.Instruction) bool { _, ok := in.(*ssa.Store); return ok }) {
+			st := in.(*ssa.Store)
+			fa, ok := st.Addr.(*ssa.FieldAddr)
+			if !ok {
+				continue
+			}
+			sty, ok := fa.X.Type().Underlying().(*types.Pointer)
+			if !ok || !types.Identical(sty.Elem(), tn.Type()) {
+				continue
+			}
+			if _, isBin := st.Val.(*ssa.BinOp); !isBin {
+				continue
+			}
+			if _, ok := hasFact(fx.FactsAt(in), func(f Fact) bool {
+				return f.T.Op == "call" && f.T.Fn != nil && strings.HasSuffix(funcPkgPath(f.T.Fn), "/pod_status")
+			}); ok {
+				name := sty.Elem().Underlying().(*types.Struct).Field(fa.Field).Name()
+				dep[name] = "a counter updated under a pod-status predicate in " + w.Name()
+			}
+		}
+	}
+	c.Floor("O11", "DEP status-dependent PodSet fields", len(dep), 3)
+	var bad []string
+	nr := 0
+	for _, h := range p.deepFind(fn, func(in ssa.Instruction) bool {
+		fa, ok := in.(*ssa.FieldAddr)
+		if !ok {
+			return false
+		}
+		sty, ok := fa.X.Type().Underlying().(*types.Pointer)
+		return ok && types.Identical(sty.Elem(), tn.Type())
+	}, 3) {
+		fa := h.In.(*ssa.FieldAddr)
+		name := tn.Type().Underlying().(*types.Struct).Field(fa.Field).Name()
+		nr++
+		if why, isDep := dep[name]; isDep {
+			bad = append(bad, name+" ("+why+")")
+		}
+	}
+	sort.Strings(bad)
+	c.Floor("O11", "DEP fields read by IsElastic", nr, 1)
+	c.Check(len(bad) == 0, "O11", "DEP", funcKey(fn)+": elasticity is independent of the pods' current status", fn.Pos(),
+		fmt.Sprintf("%d field reads, none status-dependent", nr),
+		"IsElastic reads "+strings.Join(bad, ", ")+": a workload that the min-runtime victim filter let through as elastic stops being elastic once the solver has virtually evicted pods, so the scenario validator no longer protects its minAvailable")
 }
